@@ -55,6 +55,7 @@ def pOp (s : String) : Option Op :=
   | ["sc", k, c] => do let k ← pKey k; let c ← c.toNat?; pure (.setComment k c)
   | ["dt", k] => (pKey k).map .dropTable
   | ["dv", k] => (pKey k).map .dropView
+  | ["nop"] => some .nop
   | _ => none
 
 def eTy : Ty → String
